@@ -143,8 +143,18 @@ func VerifC16Reset() {
 		verifAbstractTables()
 	}
 	src := verifSource(n)
-	// inductive form: any lexer object on src, whatever it did before
-	used := &Lexer{src: src, pos: verifNondetInt("pos"), line: verifNondetInt("line"), column: verifNondetInt("col")}
+	var used *Lexer
+	if verifParam("INDUCTIVE", 1) == 1 {
+		// inductive form: any lexer object on src, whatever it did before
+		used = &Lexer{src: src, pos: verifNondetInt("pos"), line: verifNondetInt("line"), column: verifNondetInt("col")}
+	} else {
+		// a real history: J earlier Scan calls on a new lexer
+		used = NewLexer(src)
+		j := verifParam("J", 1)
+		for i := 0; i < j; i++ {
+			used.Scan()
+		}
+	}
 	used.Reset()
 	fresh := NewLexer(src)
 	k := verifParam("K", 2)
